@@ -1,4 +1,4 @@
-import Librfn.Props.C02Tie
+import Librfn.Props.C02TieCmp
 import Librfn.Props.C09Tie
 /-!
 # C09 × C02 — the scheduler's comparator is an admissible comparator for `sorted_tie`
